@@ -151,18 +151,8 @@ func (f *File) syncWithoutLocking() error {
 					changeTime = time.Unix(0, sys.Ctim.Nano())
 				}
 
-				f.info = NewFileInfo(
-					f.info.Name(),
-					size,
-					f.info.Mode(),
-					modTime,
-					accessTime,
-					changeTime,
-					gid,
-					uid,
-					f.info.IsDir(),
-					f.log,
-				)
+				// Only the size changes; update it in place, as methods look at `f.info` (i.e. `IsDir`) before they take the lock and must not race with a replacement of the info
+				f.info.size = size
 
 				return config.FileConfig{
 					GetFile: func() (io.ReadSeekCloser, error) {
@@ -449,15 +439,14 @@ func (f *File) Stat() (os.FileInfo, error) {
 		f.info.size = size
 	}
 
+	// Hand out a copy: the handle keeps updating its own info (i.e. the size while it is being written to), which must neither change under a caller that still holds an earlier result nor race with it
+	info := *f.info
+
 	if f.link != "" {
-		info := f.info
-
 		info.name = path.Base(f.link)
-
-		return info, nil
 	}
 
-	return f.info, nil
+	return &info, nil
 }
 
 func (f *File) Readdir(count int) ([]os.FileInfo, error) {
